@@ -28,7 +28,9 @@ EXPLANATION = (
     "weights through the real reduction code (R01.13): the weight of every single cell, whatever code performs the reduction.")
 NOT_DECIDED = ("agreement with finite differences of F on concrete spectra; numpy's floating-point arithmetic; "
                "accuracy of the interpolated gamma.")
-ASSUMPTIONS = [
+ASSUMPTIONS = ["block loops over a grid axis are folded once; coverage of the axis is refuted by an exact integer witness or accepted when the trip count is ceil(L/b) structurally / on the box [1,240] x ([1,48] + {64,100,1000}) (cijsa/blocks.py)",
+               "T-LIB: the temperature grid T_MIN + DT * arange(NT) (qha.tools.arange) is integer-typed when T_MIN and DT are whole numbers: operations that keep an integer element type (numpy.reciprocal without dtype, negative integer powers) are findings",
+               
     "T-LIB: numpy.average(weights=w) divides by sum(w); numpy broadcasting as documented",
     "T-LIB: qha Calculator attributes finer_volumes_bohr3 [bohr^3], temperature_array [K], p_tv_au [Ry/bohr^3]",
     "input units: frequencies cm^-1, volumes bohr^3 (documented input format)",
